@@ -38,16 +38,16 @@ def levels(tier):
              "alphabet": ["page"], "defaults": ["never"], "pool": LONG_POOL, "ks": [1, 2], "insert": False},
         ]
     return [
-        {"name": "codec", "mode": "codec", "digits": [1, 2, 3, 4, 6, 8, 12], "prefix_indices": [0, 1, 9, 10, 123]},
-        {"name": "path", "mode": "path", "moves": [1, 2, 3, 5, 8, 16, 24, 31, 32, 33, 36, 40, 48, 64]},
-        {"name": "tpl-n2", "mode": "pages", "n": 2, "prelude": TPL, "alphabet": ["we", "addprefix", "page", "moveprefix"], "defaults": ["never", "domain"],
-         "pool": POOL5, "ks": [1, 2, 3, 4, 5, 6], "insert": True},
-        {"name": "n3", "mode": "pages", "n": 3, "alphabet": ["page", "we", "addprefix"], "defaults": ["never"],
-         "pool": [POOL4[0], POOL4[1], POOL4[3]], "ks": [1, 2, 4], "insert": True},
-        {"name": "marks", "mode": "pages", "n": 1, "prelude": [["we", [[0, 3], [3, 3]]]], "flag_pages": [1, 2, 4, 5, 0], "alphabet": ["page", "we"],
-         "defaults": ["never"], "pool": MARKS_POOL, "ks": [1, 2, 3], "insert": True},
-        {"name": "deep", "mode": "pages", "n": 1, "prelude": [["we", [[0, 3]]], ["page", 2, False], ["page", 3, True], ["page", 4, False]],
+        {"name": "codec-wide", "mode": "codec", "digits": [1, 2, 3, 4, 6, 8, 12], "prefix_indices": [0, 1, 9, 10, 123]},
+        {"name": "path-wide", "mode": "path", "moves": [1, 2, 3, 5, 8, 16, 24, 31, 32, 33, 36, 40, 48, 64]},
+        {"name": "deep-n1", "mode": "pages", "n": 1, "prelude": [["we", [[0, 3]]], ["page", 2, False], ["page", 3, True], ["page", 4, False]],
          "alphabet": ["page", "we"], "defaults": ["never"], "pool": DEEP_POOL, "ks": [1, 2, 3, 4], "insert": True},
+        {"name": "marks-insert", "mode": "pages", "n": 0, "prelude": [["we", [[0, 3], [3, 3]]]], "flag_pages": [1, 2, 4, 5], "alphabet": ["page"],
+         "defaults": ["never"], "pool": MARKS_POOL, "ks": [1, 2, 3], "insert": True},
+        {"name": "tpl-n2", "mode": "pages", "n": 2, "prelude": TPL, "alphabet": ["we", "addprefix", "page"], "defaults": ["never"],
+         "pool": POOL5, "ks": [1, 2, 3], "insert": False},
+        {"name": "n3", "mode": "pages", "n": 3, "alphabet": ["page", "we", "addprefix"], "defaults": ["never"],
+         "pool": [POOL4[0], POOL4[1], POOL4[3]], "ks": [1, 2], "insert": False},
     ]
 
 
